@@ -226,6 +226,10 @@ proof fn lemma_without_root_ok(m: Seq<(Seq<char>, J)>)
 // ---- the two serializations of (jwt, disclosures, kb) (C10) ----
 spec fn compact_of(jwt: Seq<char>, ds: Seq<Seq<char>>, kb: Seq<char>) -> Seq<char> { join_tilde(seq![jwt] + ds) + "~"@ + kb }
 spec fn opt_seq_j(kb: Option<Seq<char>>) -> J { match kb { Some(k) => J::Str(k), None => J::Null } }
+spec fn json_env(a: Seq<char>, b: Seq<char>, c: Seq<char>, ds: Seq<Seq<char>>) -> J {
+    J::Obj(seq![("protected"@, J::Str(a)), ("payload"@, J::Str(b)), ("signature"@, J::Str(c)),
+        ("disclosures"@, J::Arr(str_js(ds))), ("kb_jwt"@, J::Null)])
+}
 spec fn json_of(a: Seq<char>, b: Seq<char>, c: Seq<char>, ds: Seq<Seq<char>>, kb: Option<Seq<char>>) -> Seq<char> {
     serde_json::ser_text(J::Obj(seq![("protected"@, J::Str(a)), ("payload"@, J::Str(b)), ("signature"@, J::Str(c)),
         ("disclosures"@, J::Arr(str_js(ds))), ("kb_jwt"@, opt_seq_j(kb))]))
@@ -236,6 +240,59 @@ spec fn join_dots(p: Seq<Seq<char>>) -> Seq<char> decreases p.len() {
 }
 spec fn split_dots_ok(s: Seq<char>, p: Seq<Seq<char>>) -> bool {
     join_dots(p) == s && forall|i: int| 0 <= i < p.len() ==> !(#[trigger] p[i]).contains('.')
+}
+
+// splitting at '.' is unique: the number of pieces is the number of dots + 1
+spec fn count_dots(s: Seq<char>) -> nat decreases s.len() {
+    if s.len() == 0 { 0 } else { count_dots(s.drop_last()) + (if s.last() == '.' { 1nat } else { 0nat }) }
+}
+proof fn lemma_count_dots_add(a: Seq<char>, b: Seq<char>)
+    ensures count_dots(a + b) == count_dots(a) + count_dots(b)
+    decreases b.len()
+{
+    if b.len() == 0 { assert(a + b =~= a); } else {
+        assert((a + b).drop_last() =~= a + b.drop_last());
+        lemma_count_dots_add(a, b.drop_last());
+    }
+}
+proof fn lemma_count_dots_none(a: Seq<char>)
+    requires !a.contains('.')
+    ensures count_dots(a) == 0
+    decreases a.len()
+{
+    if a.len() > 0 {
+        assert(a[a.len() - 1] != '.') by { if a[a.len() - 1] == '.' { assert(a.contains('.')); } }
+        assert forall|c: char| a.drop_last().contains(c) implies a.contains(c) by {
+            let i = choose|i: int| 0 <= i < a.drop_last().len() && a.drop_last()[i] == c; assert(a[i] == c);
+        }
+        lemma_count_dots_none(a.drop_last());
+    }
+}
+proof fn lemma_split_dots_len(s: Seq<char>, p: Seq<Seq<char>>)
+    requires p.len() >= 1, split_dots_ok(s, p)
+    ensures p.len() == count_dots(s) + 1
+    decreases p.len()
+{
+    reveal_strlit(".");
+    lemma_count_dots_none(p.last());
+    if p.len() > 1 {
+        let q = p.drop_last();
+        assert forall|i: int| 0 <= i < q.len() implies !(#[trigger] q[i]).contains('.') by { assert(q[i] == p[i]); }
+        lemma_split_dots_len(join_dots(q), q);
+        lemma_count_dots_add(join_dots(q) + "."@, p.last());
+        lemma_count_dots_add(join_dots(q), "."@);
+        assert("."@.len() == 1 && "."@[0] == '.');
+        assert("."@.drop_last() =~= Seq::<char>::empty());
+        assert(count_dots("."@) == 1) by { reveal_with_fuel(count_dots, 2); }
+    }
+}
+
+// A-JWT: a compact JWS is three base64url segments joined by '.': it contains exactly two dots
+broadcast axiom fn axiom_jws_two_dots(tok: Seq<char>)
+    ensures #[trigger] jsonwebtoken::well_formed(tok) ==> count_dots(tok) == 2;
+// the only reasons for which signing may fail: an unknown algorithm name, or a key the library cannot sign with under it
+spec fn sign_fail_reason(key: EncodingKey, alg_name: Seq<char>) -> bool {
+    match jsonwebtoken::alg_of_str(alg_name) { None => true, Some(a) => !jsonwebtoken::key_usable(key, a) }
 }
 
 // ---- shape of an issued payload (C05.shape) ----
